@@ -1,5 +1,6 @@
 import ButlerModel.Model.Conc
 import ButlerModel.Model.Lock
+import ButlerModel.Gen.SyncPy
 /-! # C20 — concurrent clients behave as if they ran one after another -/
 namespace C20
 open Conc
@@ -190,3 +191,54 @@ theorem swapped_order_loses_artifact :
     exec swappedOrder 1 false start ≠ sequential := by decide
 
 end C20.FailedBlock
+
+/-! ### The decision of `Database.sync` as translated from the source on every run (`Gen/SyncPy.lean`, `translate/gen_sync.py`)
+
+`n` rows carry the keys after the `INSERT … ON CONFLICT IGNORE`; `bad`: the existing row differs in a compared column;
+`inserted`: the insert added the row; `update`: the caller asked for differing columns to be overwritten. -/
+namespace C20.Translated
+open Gen.SyncPy
+
+/-- **Registrations are get-or-create**: when exactly one row carries the keys and it agrees with what was asked for, `sync`
+succeeds for every caller, and tells each whether *its* insert created the row (1) or the row was already there (0). -/
+theorem get_or_create (inserted update : Bool) :
+    syncDecision 1 false inserted update = .ok (if inserted then 1 else 0) := by
+  cases inserted <;> cases update <;> rfl
+
+/-- **A differing definition is never accepted silently**: whenever `sync` returns while the existing row differs from what was
+asked for, the caller had asked for an update, the row was not this caller's insert, and the result says "updated". -/
+theorem conflict_never_silent (n : Int) (inserted update : Bool) (c : Nat)
+    (h : syncDecision n true inserted update = .ok c) : update = true ∧ inserted = false ∧ c = 2 ∧ n = 1 := by
+  unfold syncDecision at h
+  by_cases h1 : n < 1
+  · simp [h1] at h
+  · by_cases h2 : n > 1
+    · simp [h1, h2] at h
+    · have hn : n = 1 := by omega
+      cases inserted <;> cases update <;> simp [h1, h2] at h
+      exact ⟨rfl, rfl, h.symm, hn⟩
+
+/-- without `update`, a differing existing row is the documented conflict error -/
+theorem conflict_refused (inserted : Bool) (hi : inserted = false) :
+    syncDecision 1 true inserted false = .error "DatabaseConflictError" := by
+  subst hi; rfl
+
+/-- keys that do not identify one row are an error, never a guess -/
+theorem not_unique_is_error (n : Int) (bad inserted update : Bool) (h : n ≠ 1) :
+    ∃ e, syncDecision n bad inserted update = .error e := by
+  unfold syncDecision
+  by_cases h1 : n < 1
+  · exact ⟨"ConflictingDefinitionError", by simp [h1]⟩
+  · have h2 : n > 1 := by omega
+    exact ⟨"RuntimeError", by simp [h1, h2]⟩
+
+/-- the whole decision table -/
+theorem sync_table (n : Int) (bad inserted update : Bool) :
+    syncDecision n bad inserted update =
+      if n < 1 then .error "ConflictingDefinitionError" else if n > 1 then .error "RuntimeError"
+      else if bad then (if inserted then .error "RuntimeError" else if update then .ok 2 else .error "DatabaseConflictError")
+      else .ok (if inserted then 1 else 0) := by
+  unfold syncDecision
+  by_cases h1 : n < 1 <;> by_cases h2 : n > 1 <;> cases bad <;> cases inserted <;> cases update <;> simp [h1, h2]
+
+end C20.Translated
